@@ -301,10 +301,96 @@ def rule_elab_eval(chk):
             chk.note("C03.elab: parse_expr_ternary is not readable (%s)" % [r[4] for r in res if not r[1]][:1])
     return readable_b, readable_u
 
+SWIZZLES = ["x", "y", "w", "xy", "xx", "yx", "xyz", "rgba", "zzzz", "xyzw", "ba", "q", "xg", "_m00", "_11", "_m00_m11", "_11_22_12",
+            "_m11_m11", "_m33", "_m00_11", "a", "v", "mips", "Origin", "TMax"]
+INDEX_TYPES = [("Int32", "Rvalue"), ("UInt32", "Lvalue"), ("Float32", "Rvalue"), ("UInt322", "Rvalue"), ("Int323", "Rvalue"),
+               ("Bool", "Rvalue"), ("Struct", "Rvalue")]
+
+
+def _access_task(name):
+    """Member and ArraySubscript arms of parse_expr_unchecked on a composite of type `name`.
+    -> (name, readable, cases, accepted, [(kind, msg)], {node kind: message} constness failures)"""
+    import elabmodel as EM
+    el, ls, rs, intr = _elab()
+    bad = {"type": []}
+    constness = {}
+    cases = n_ok = 0
+    is_obj = name in el.u.objects
+    array_of_const = name.startswith("const ")
+    for m, vt in ((0, "Lvalue"), (1, "Lvalue"), (2, "Lvalue"), (0, "Rvalue")):
+        if array_of_const and m:
+            continue
+        comp = el.ety(name, m, vt)
+        forms = [("%s.%s" % (el.describe(comp), sw), I.Enum("Expression", "Member", {"0": EM.located("L"), "1": EM.member_path(sw)}), {"L": comp}, ("L",))
+                 for sw in SWIZZLES if not is_obj or name == "RayDesc"]
+        for it, ivt in INDEX_TYPES:
+            if it in el.u.names:
+                ie = el.ety(it, 0, ivt)
+                forms.append(("%s[%s]" % (el.describe(comp), el.describe(ie)), I.Enum("Expression", "ArraySubscript", {"0": EM.located("L"), "1": EM.located("R")}),
+                              {"L": comp, "R": ie}, ("L", "R")))
+        for what, ast_node, operands, tags in forms:
+            cases += 1
+            res = el.run_expr(ast_node, operands)
+            if res[0] == "unreadable":
+                return (name, False, cases, n_ok, res[1], {})
+            if res[0] == "aborts":
+                addbad(bad, "%s: elaboration aborts (%s)" % (what, res[1]))
+                continue
+            if res[0] == "Err" or res[2] is None:
+                continue
+            n_ok += 1
+            node, ty = res[1], res[2]
+            msgs = el.check_node(what, node, ty, operands, tags)
+            for kind, msg in msgs:
+                if kind == "unreadable":
+                    return (name, False, cases, n_ok, msg, {})
+                addbad(bad, msg)
+            # a part of a const value is not writable: const-qualified, or not an lvalue
+            # (a const resource handle does not make the resource contents const: value types and RayDesc only)
+            if not msgs and (not is_obj or name == "RayDesc") and (m == 1 or array_of_const) and vt == "Lvalue" and el.is_lvalue(ty) and not el.is_const(ty):
+                kind = node.variant
+                constness.setdefault(kind, "%s has type %s: a part of a const value is a plain lvalue, so assignments, ++/-- and out arguments accept it" % (what, el.describe(ty)))
+    return (name, True, cases, n_ok, bad, constness)
+
+
+def rule_access_eval(chk):
+    """The Member and ArraySubscript arms of parse_expr_unchecked evaluated over scalars, vectors, matrices, structs, arrays
+    and every object type: every accepted access is typed again by Expression::get_type (no abort, same type as
+    reported), and a part selected from a const value is itself const (or not an lvalue)."""
+    f = chk.facts
+    el, ls, rs, intr = _elab()
+    pe = f.fn("parse_expr_unchecked", TY)
+    if not pe or not el.get_type:
+        return False
+    names = [n for n in ("Float32", "Int32", "Float322", "Float324", "Bool3", "Float322x2", "Int324x4", "Struct", "Enum", "Float32[4]", "Struct[]", "const Float324[2]")
+             if n in el.u.names] + list(el.u.objects)
+    res = _pmap(_access_task, names)
+    if not all(r[1] for r in res):
+        chk.note("C03.access: parse_expr_unchecked's member / subscript arms are not readable (%s)" % [(r[0], r[4]) for r in res if not r[1]][:1])
+        return False
+    for name, _r, cases, n_ok, bad, constness in sorted(res):
+        chk.ob("C03.access/" + name, not bad["type"], "%d member / subscript forms (%d accepted): each accepted node is typed by the IR rule without aborting, as reported" % (cases, n_ok)
+               if not bad["type"] else "; ".join(m for k, m in bad["type"]), where(pe), sample={"composite": name, "cases": cases, "accepted": n_ok})
+    kinds = {}
+    for r in res:
+        for k, m in r[5].items():
+            kinds.setdefault(k, m)
+    seen = set()
+    for r in res:
+        seen |= set()
+    for k in ("Swizzle", "MatrixSwizzle", "ArraySubscript", "StructMember"):
+        chk.ob("C03.constness/" + k, k not in kinds, "a %s of a const value is const-qualified or an rvalue" % k if k not in kinds else kinds[k], where(pe))
+    for k in sorted(set(kinds) - {"Swizzle", "MatrixSwizzle", "ArraySubscript", "StructMember"}):
+        chk.ob("C03.constness/" + k, False, kinds[k], where(pe))
+    chk.floor("C03.floor/access-accepted", sum(r[3] for r in res), 300, "accepted member / subscript forms typed again", where(pe))
+    return True
+
+
 
 def run(chk):
     f = chk.facts
     rb, ru = rule_elab_eval(chk)
+    rule_access_eval(chk)
     if not rb:
         rule_assign(chk)
     if not ru:
